@@ -19,7 +19,12 @@
 (* the order in which the server minted them (cur[k] = position sealed in  *)
 (* cursor k), whether or not the response carrying them ever arrived.      *)
 (* A scripted stream produces the values 1, 2, 3, ... (value = position),  *)
-(* so "the batches the server produced, in order" is 1..n.                 *)
+(* so "the batches the server produced, in order" is 1..n.  A data batch    *)
+(* has ONE row carrying its position, or -- at the positions the script     *)
+(* lists in `zs` -- ZERO rows (an empty partition: a legal data batch that  *)
+(* must be handed over like any other).  What identifies a batch is its     *)
+(* position; what the caller can see of it is its row count and, when it    *)
+(* has a row, its value.                                                     *)
 (*                                                                         *)
 (* Served: C21.  MC.cfg / Gen*.cfg describe the client with the two        *)
 (* proposed fixes (RequireEOS, ExcFirst; proposed_fix_C21.diff); the        *)
@@ -34,7 +39,10 @@ CONSTANTS
     Mode, Depth,
     Kinds,       \* subset of {"unary", "prod", "exch"}
     MaxN,        \* producer: 0..MaxN data batches; exchange: error after 0..MaxN good turns
-    Limits,      \* producer batch limits of the server (data batches per HTTP turn), e.g. {1, 2}
+    MaxZeros,    \* at most this many of a script's data batches have zero rows (0: every batch has a
+                 \* row); WHICH positions is free: first, middle, last, consecutive, all
+    Limits,      \* producer batch limits of the server (data batches per HTTP turn), e.g. {0, 1, 2};
+                 \* 0 = no limit (the whole stream travels in the init response)
     InitErrs,    \* {FALSE} or {FALSE, TRUE}: may the stream-init handler fail
     Inputs,      \* exchange inputs offered: subset of {"ok", "drift"}
     Decls,       \* unary: is a result schema declared: subset of BOOLEAN
@@ -69,7 +77,9 @@ VARIABLES
 
 vars == <<kind, sc, tok, fin, closed, pend, cur, posted, deliv, amb, cancelled, ended, why, nf, hist>>
 
-NoScript == [n |-> 0, term |-> "finish", lim |-> 0, initerr |-> FALSE]
+NoScript == [n |-> 0, term |-> "finish", lim |-> 0, initerr |-> FALSE, zs |-> {}]
+\* rows of the data batch the script emits at position p
+Rows(s, p) == IF p \in s.zs THEN 0 ELSE 1
 Values == <<1, 2, 3, 4, 5, 6, 7, 8>>          \* value = position
 Min(a, b) == IF a < b THEN a ELSE b
 Hit(F, S) == F \cap S # {}
@@ -87,13 +97,15 @@ Resp(d, p, o, e, h, s) == [data |-> d, pos |-> p, own |-> o, exc |-> e, hdr |-> 
 
 \* runProduceLoop of script s resumed at position p: Produce until `lim` data batches were
 \* written (then a cursor), or the script finishes / fails.  A failing Produce keeps the
-\* batches already written in this turn.
+\* batches already written in this turn.  A zero-row data batch counts towards the limit like any
+\* other (the loop counts the collector's data batch, not its rows); lim = 0: no limit.
 ProdTurn(s, p) ==
-    IF p + s.lim <= s.n
+    IF s.lim > 0 /\ p + s.lim <= s.n
     THEN Resp(SubSeq(Values, p + 1, p + s.lim), p + s.lim, TRUE, FALSE, FALSE, FALSE)
     ELSE Resp(SubSeq(Values, p + 1, s.n), -1, FALSE, s.term = "error", FALSE, FALSE)
 
-\* handleExchangeCall at position p: one data batch carrying the new cursor, or an exception
+\* handleExchangeCall at position p: one data batch carrying the new cursor -- also when that batch
+\* has zero rows -- or an exception
 ExchTurn(s, p) ==
     IF s.term = "error" /\ p = s.n
     THEN Resp(<<>>, -1, FALSE, TRUE, TRUE, FALSE)
@@ -183,6 +195,15 @@ ParseExit(R, F, decl) ==
          [] "trunc_msg" \in F /\ RequireEOS     -> "no_eos"
          [] OTHER                               -> "ok"
 
+\* parseIPCStream's classification of a batch that is neither log nor exception: it is the cursor's
+\* own sentinel, swallowed, iff it CARRIES A CURSOR and has zero rows and the caller did not announce
+\* that the cursor rides on the data batch (tokenIsData: unary, header and exchange turns).  Every
+\* other batch is data whatever its row count: a zero-row batch without cursor in a producer / init
+\* response is an empty partition, and the zero-row answer of an exchange turn is its data batch.
+\* (In E the cursor rides on a data batch iff ~E.own /\ E.pos >= 0: the answer of an exchange turn.)
+IsSentinel(s, E, p, tokenIsData) == (~E.own /\ E.pos >= 0) /\ Rows(s, p) = 0 /\ ~tokenIsData
+Handed(s, E, tokenIsData) == SelectSeq(E.data, LAMBDA p : ~IsSentinel(s, E, p, tokenIsData))
+
 \* HttpClient.parseMain (unary and continuation responses)
 MainExit(R, F, decl) ==
     LET p == PostExit(F) q == ParseExit(R, F, decl) IN
@@ -226,9 +247,15 @@ NewId(R, E, F) == IF Reached(F) /\ R.pos >= 0 /\ E.pos >= 0 THEN Len(cur) + 1 EL
 PostExits == {"do_error", "enc_oversize", "read_error", "enc_unsupported", "decode", "http_status"}
 Why(k, x) == IF x = "ok" THEN "" ELSE IF k = "exch" THEN x ELSE IF x \in PostExits THEN "post" ELSE "parse"
 
+\* rows = row count of the batch the call returned, -1 = it returned no batch
 Exp(ok, end, v, exc, posts, sent, exit) ==
-    [ok |-> ok, end |-> end, v |-> v, md |-> TRUE, exc |-> exc, posts |-> posts, sent |-> sent,
-     dup |-> FALSE, m_exit |-> exit]
+    [ok |-> ok, end |-> end, v |-> v, rows |-> -1, md |-> TRUE, exc |-> exc, posts |-> posts,
+     sent |-> sent, dup |-> FALSE, m_exit |-> exit]
+\* the call returned the data batch of position p of script s: its row count and, when it has a
+\* row, its value
+Got(s, p, posts, sent) ==
+    [Exp(TRUE, FALSE, IF Rows(s, p) = 0 THEN 0 ELSE p, "none", posts, sent, "ok")
+        EXCEPT !.rows = Rows(s, p)]
 
 --------------------------------------------------------------------------
 (* CallUnary: post, parseMain, exactly one data batch.                     *)
@@ -241,11 +268,13 @@ CallUnary(term, decl, F) ==
           /\ \E keep \in Keeps(F, R) :
              LET E == Eff(R, F, keep)
                  m == MainExit(R, F, decl)
-                 x == IF m # "ok" THEN m ELSE IF Len(E.data) # 1 THEN "count" ELSE "ok"
+                 D == Handed(s, E, TRUE)
+                 x == IF m # "ok" THEN m ELSE IF Len(D) # 1 THEN "count" ELSE "ok"
              IN RecordStep([a |-> "CallUnary",
                     args |-> [term |-> term, decl |-> decl, f |-> F, keep |-> keep],
-                    exp |-> Exp(x = "ok", FALSE, IF x = "ok" THEN 1 ELSE 0,
-                                IF x = "exception" THEN "srv" ELSE "none", 1, <<>>, x)])
+                    exp |-> IF x = "ok" THEN Got(s, 1, 1, <<>>)
+                            ELSE Exp(FALSE, FALSE, 0,
+                                     IF x = "exception" THEN "srv" ELSE "none", 1, <<>>, x)])
     /\ nf' = nf + Cardinality(F)
     /\ UNCHANGED <<tok, fin, closed, pend, cur, posted, deliv, amb, cancelled, ended, why>>
 
@@ -263,7 +292,7 @@ Open(k, s, F) ==
               id == NewId(R, E, F)
           IN /\ cur' = Mint(R, F)
              /\ IF x = "ok"
-                THEN /\ kind' = k /\ pend' = E.data /\ tok' = id /\ fin' = (id = 0)
+                THEN /\ kind' = k /\ pend' = Handed(s, E, FALSE) /\ tok' = id /\ fin' = (id = 0)
                 ELSE /\ kind' = "dead" /\ UNCHANGED <<pend, tok, fin>>
              /\ RecordStep([a |-> "Open",
                     args |-> [kind |-> k, sc |-> s, f |-> F, keep |-> keep],
@@ -289,7 +318,7 @@ Next_Pending ==
     /\ Budget /\ kind = "prod" /\ ~closed /\ pend # <<>>
     /\ pend' = Tail(pend) /\ deliv' = Append(deliv, Head(pend))
     /\ RecordStep([a |-> "Next", args |-> [f |-> {}, keep |-> -1],
-                   exp |-> Exp(TRUE, FALSE, Head(pend), "none", 0, <<>>, "ok")])
+                   exp |-> Got(sc, Head(pend), 0, <<>>)])
     /\ UNCHANGED <<kind, sc, tok, fin, closed, cur, posted, amb, cancelled, ended, why, nf>>
 
 Next_Finished ==
@@ -311,6 +340,7 @@ Next_Post(F) ==
           LET E == Eff(R, F, keep)
               x == MainExit(R, F, TRUE)
               id == NewId(R, E, F)
+              D == Handed(sc, E, FALSE)
           IN /\ cur' = Mint(R, F)
              /\ posted' = (IF kind = "exch" THEN Append(posted, tok) ELSE posted)
              /\ why' = Why("prod", x)
@@ -320,12 +350,12 @@ Next_Post(F) ==
                             exp |-> Exp(FALSE, FALSE, 0, IF x = "exception" THEN "srv" ELSE "none",
                                         1, <<tok>>, x)])
                 ELSE /\ tok' = id /\ fin' = (id = 0)
-                     /\ E.data # <<>> \/ id = 0          \* (else the code would POST again)
-                     /\ IF E.data # <<>>
-                        THEN /\ pend' = Tail(E.data) /\ deliv' = Append(deliv, Head(E.data))
+                     /\ D # <<>> \/ id = 0               \* (else the code would POST again)
+                     /\ IF D # <<>>
+                        THEN /\ pend' = Tail(D) /\ deliv' = Append(deliv, Head(D))
                              /\ UNCHANGED ended
                              /\ RecordStep([a |-> "Next", args |-> [f |-> F, keep |-> keep],
-                                    exp |-> Exp(TRUE, FALSE, Head(E.data), "none", 1, <<tok>>, "ok")])
+                                    exp |-> Got(sc, Head(D), 1, <<tok>>)])
                         ELSE /\ pend' = <<>> /\ UNCHANGED deliv
                              /\ ended' = (ended \/ ~cancelled)
                              /\ RecordStep([a |-> "Next", args |-> [f |-> F, keep |-> keep],
@@ -355,8 +385,9 @@ Exchange_Post(F) ==
        /\ \E keep \in Keeps(F, R) :
           LET E == Eff(R, F, keep)
               m == MainExit(R, F, TRUE)
+              D == Handed(sc, E, TRUE)
               x == IF m # "ok" THEN m
-                   ELSE IF Len(E.data) # 1 THEN "count"
+                   ELSE IF Len(D) # 1 THEN "count"
                    ELSE IF E.pos < 0 THEN "no_cursor" ELSE "ok"
               id == NewId(R, E, F)
           IN /\ cur' = Mint(R, F)
@@ -364,9 +395,9 @@ Exchange_Post(F) ==
              /\ amb' = (amb \/ F # {})
              /\ why' = Why("exch", x)
              /\ IF x = "ok"
-                THEN /\ tok' = id /\ fin' = FALSE /\ deliv' = Append(deliv, E.data[1])
+                THEN /\ tok' = id /\ fin' = FALSE /\ deliv' = Append(deliv, D[1])
                      /\ RecordStep([a |-> "Exchange", args |-> [f |-> F, keep |-> keep, input |-> "ok"],
-                            exp |-> Exp(TRUE, FALSE, E.data[1], "none", 1, <<tok>>, "ok")])
+                            exp |-> Got(sc, D[1], 1, <<tok>>)])
                 ELSE /\ tok' = 0 /\ fin' = TRUE /\ UNCHANGED deliv
                      /\ RecordStep([a |-> "Exchange", args |-> [f |-> F, keep |-> keep, input |-> "ok"],
                             exp |-> Exp(FALSE, FALSE, 0, IF x = "exception" THEN "srv" ELSE "none",
@@ -407,13 +438,19 @@ Close ==
 --------------------------------------------------------------------------
 \* producer: n data batches, then the script finishes or fails; exchange: n good turns, then the
 \* script fails (term = "error") or never does; a failing init handler makes the rest irrelevant
+\* zs: which of the positions 1..m hold a zero-row data batch (any subset of <= MaxZeros positions).
+\* An exchange script that never fails answers every turn; at most MaxCur - 1 turns are reachable.
+ZeroSets(m) == {z \in SUBSET (1..m) : Cardinality(z) <= MaxZeros}
 Scripts(k) ==
     IF k = "prod"
-    THEN {[n |-> n, term |-> t, lim |-> l, initerr |-> FALSE] :
-              n \in 0..MaxN, t \in {"finish", "error"}, l \in Limits}
-         \cup {[n |-> 0, term |-> "finish", lim |-> l, initerr |-> e] : l \in Limits, e \in InitErrs \ {FALSE}}
-    ELSE {[n |-> n, term |-> "error", lim |-> 0, initerr |-> FALSE] : n \in 0..MaxN}
-         \cup {[n |-> 0, term |-> "finish", lim |-> 0, initerr |-> e] : e \in InitErrs}
+    THEN UNION {{[n |-> n, term |-> t, lim |-> l, initerr |-> FALSE, zs |-> z] :
+                    t \in {"finish", "error"}, l \in Limits, z \in ZeroSets(n)} : n \in 0..MaxN}
+         \cup {[n |-> 0, term |-> "finish", lim |-> l, initerr |-> e, zs |-> {}] :
+                    l \in Limits, e \in InitErrs \ {FALSE}}
+    ELSE UNION {{[n |-> n, term |-> "error", lim |-> 0, initerr |-> FALSE, zs |-> z] : z \in ZeroSets(n)} :
+                    n \in 0..MaxN}
+         \cup {[n |-> 0, term |-> "finish", lim |-> 0, initerr |-> FALSE, zs |-> z] : z \in ZeroSets(MaxCur - 1)}
+         \cup {[n |-> 0, term |-> "finish", lim |-> 0, initerr |-> e, zs |-> {}] : e \in InitErrs \ {FALSE}}
 
 Init ==
     /\ kind = "none" /\ sc = NoScript
@@ -426,8 +463,9 @@ Init ==
 
 Next ==
     \/ \E t \in {"finish", "error"}, d \in Decls, F \in FaultSets : CallUnary(t, d, F)
-    \/ \E k \in Kinds \ {"unary"} : \E s \in Scripts(k), F \in FaultSets :
-          (s.initerr => F = {}) /\ Open(k, s, F)
+    \/ /\ kind = "none"          \* (hoisted: the scripts are not enumerated in every state)
+       /\ \E k \in Kinds \ {"unary"} : \E F \in (IF OpenFaults THEN FaultSets ELSE {{}}), s \in Scripts(k) :
+             (s.initerr => F = {}) /\ Open(k, s, F)
     \/ Next_Closed \/ Next_WrongKind \/ Next_Pending \/ Next_Finished
     \/ \E F \in FaultSets : Next_Post(F)
     \/ \E i \in Inputs \cup {"ok"} : Exchange_Local(i)
@@ -458,11 +496,23 @@ CleanEndIsComplete ==
 
 \* (1c) every returned batch carries its user metadata without the framework's token keys
 \*      (md is what the driver reports; the model's promise is the constant TRUE), a unary call
-\*      returns the one value
+\*      returns the one value; every successful Next that is not the end of the stream and every
+\*      successful Exchange returns THE NEXT batch of the server's stream -- the one at position
+\*      Len(deliv) + 1 -- as the server made it: with zero rows if it is an empty batch, with its
+\*      one row and value otherwise.  An empty batch is neither skipped nor mistaken for the end.
+ReturnsBatch == Last.a \in {"Next", "Exchange"} /\ Last.exp.ok /\ ~Last.exp.end
 ReturnedBatches ==
     [][ Stepped => /\ Last.exp.md = TRUE
-                   /\ (Last.a = "CallUnary" /\ Last.exp.ok) => Last.exp.v = 1
-                   /\ (Last.exp.v # 0) => Last.exp.ok ]_vars
+                   /\ (Last.a = "CallUnary" /\ Last.exp.ok) => (Last.exp.v = 1 /\ Last.exp.rows = 1)
+                   /\ (Last.exp.v # 0) => Last.exp.ok
+                   /\ (Last.exp.rows >= 0) => (Last.exp.ok /\ ~Last.exp.end)
+                   /\ ReturnsBatch =>
+                        LET p == Len(deliv) + 1 IN
+                        /\ deliv' = Append(deliv, p)
+                        /\ Last.exp.rows = Rows(sc', p)
+                        /\ Last.exp.v = (IF Rows(sc', p) = 0 THEN 0 ELSE p)
+                   /\ (Last.a \in {"Next", "Exchange"} /\ ~ReturnsBatch) =>
+                        (deliv' = deliv /\ Last.exp.rows = -1) ]_vars
 
 \* (1d) server exceptions surface as the server's typed error: an undamaged turn fails only with
 \*      the server's exception, and the server's exception is reported only when the script raises
